@@ -81,6 +81,18 @@ pub fn wire_canon(s: &RS) -> RS {
     }
 }
 
+fn opaque_traits(s: &RS) -> RS {
+    if let RS::Trait(..) | RS::FnClosure(..) | RS::Future(..) = s {
+        return RS::Custom("<trait object>".into());
+    }
+    let mut out = s.clone();
+    let kids: Vec<RS> = children(s).iter().map(|(_, c)| opaque_traits(c)).collect();
+    for (i, k) in kids.into_iter().enumerate() {
+        out = with_child(&out, i, k);
+    }
+    out
+}
+
 const VARIANT_NAMES: [&str; 3] = ["", "x", "y"];
 const DISCRS: [u8; 3] = [0, 1, 255];
 const WIDTHS: [u8; 3] = [1, 2, 4];
@@ -391,14 +403,21 @@ fn walk(s: &RS, path: &str, out: &mut Vec<Mutation>) {
     }
 }
 
-/// All single mutations of `s`. A `required` mutation whose result has the same wire-canonical
-/// form as `s` (e.g. swapping two fields that differ only in name) is downgraded to a control.
+/// All single mutations of `s`. A reordering whose result has the same wire-canonical form as `s`
+/// (e.g. swapping two fields that differ only in name) is downgraded to a control.
 pub fn mutations(s: &RS) -> Vec<Mutation> {
     let mut out = vec![];
     walk(s, "", &mut out);
-    let base = wire_canon(s);
+    // "reordered when that changes the tree": a swap is required to be reported only if it changes
+    // the tree modulo everything the documentation calls insignificant. For this test trait
+    // objects / closures / futures are opaque (they are compared by ABI policy: methods are matched
+    // by name, names and bounds are not compared), so swapping two of them is never a claim.
+    let base = opaque_traits(&wire_canon(s));
     for m in &mut out {
-        if m.required && wire_canon(&m.result) == base {
+        if m.required
+            && (m.kind == "field_reordered" || m.kind == "variant_reordered")
+            && opaque_traits(&wire_canon(&m.result)) == base
+        {
             m.required = false;
         }
     }
